@@ -130,6 +130,67 @@ pub fn check_input(input: &[u8], cfg: u8, script: Option<&Script>) -> Result<(us
     Ok((obs.len(), kinds))
 }
 
+/// Raw reads through `Reader::stream()` are part of the same bookkeeping: a raw read of n bytes returns
+/// exactly input[pos..pos+n] and advances the position by n (io::Read on the buffered reader, AsyncRead
+/// read_exact over 1-byte pieces — several polls on one ReadBuf — on the async one).
+fn stream_tiling(input: &[u8], is_async: bool, k: usize) -> Result<u64, String> {
+    use crate::env::{block_on, Source};
+    use tokio::io::AsyncReadExt;
+    let script = Script::pieces(1);
+    let horizon = 4 * input.len() + 64;
+    let r = guarded_mut(|| -> Result<u64, String> {
+        let mut reader = Reader::from_reader(Source::new(input, &script));
+        apply_cfg(reader.config_mut(), NEUTRAL);
+        let mut buf = Vec::new();
+        let mut calls = 0u64;
+        for _ in 0..2 * input.len() + 8 {
+            buf.clear();
+            let ev = if is_async {
+                match block_on(reader.read_event_into_async(&mut buf), horizon) {
+                    Some(r) => Ev::from_result(&r),
+                    None => return Err("async read did not complete".into()),
+                }
+            } else {
+                Ev::from_result(&reader.read_event_into(&mut buf))
+            };
+            calls += 1;
+            if ev == Ev::Eof || matches!(&ev, Ev::Err(e) if e.is_syntax()) {
+                return Ok(calls);
+            }
+            // after a text that ended at a `<` the reader has already taken that byte from the source: raw reads
+            // are meaningful (and documented) between markup events only
+            if matches!(ev, Ev::Text(_)) {
+                continue;
+            }
+            let before = reader.buffer_position() as usize;
+            let avail = input.len().saturating_sub(before).min(k);
+            let mut bin = vec![0u8; avail];
+            if avail > 0 {
+                if is_async {
+                    let mut st = reader.stream();
+                    match block_on(AsyncReadExt::read_exact(&mut st, &mut bin), horizon) {
+                        Some(Ok(_)) => {}
+                        other => return Err(format!("async raw read of {} bytes at {} failed: {:?}", avail, before, other.map(|r| r.map(|_| ()))))
+                    }
+                } else {
+                    let mut st = reader.stream();
+                    std::io::Read::read_exact(&mut st, &mut bin).map_err(|e| format!("raw read of {} bytes at {} failed: {:?}", avail, before, e))?;
+                }
+                calls += 1;
+                let after = reader.buffer_position() as usize;
+                if bin != input[before..before + avail] || after != before + avail {
+                    return Err(format!("a raw read of {} bytes at position {} returned {:?} and moved the position to {} (input there: {:?})", avail, before, lossy(&bin), after, lossy(&input[before..before + avail])));
+                }
+            }
+        }
+        Err("no Eof within the call bound".into())
+    });
+    match r {
+        Ok(x) => x,
+        Err(p) => Err(format!("panic: {}", p)),
+    }
+}
+
 fn sweep(ctx: &Ctx, ln: u32, sp: &Space, buffered_cuts: usize, count_distinct: bool, a_len: usize) {
     let seed = ctx.seed;
     let mut desc = sp.desc.clone();
@@ -186,6 +247,22 @@ fn sweep(ctx: &Ctx, ln: u32, sp: &Space, buffered_cuts: usize, count_distinct: b
                 }
             }
         }
+        if buffered_cuts > 0 && n >= 2 && n <= 64 && !matches!(input[0], 0xEF | 0xFE | 0xFF | 0) {
+            for is_async in [false, true] {
+                for k in [1usize, 3] {
+                    acc.evaluations += 1;
+                    acc.traces += 1;
+                    match stream_tiling(&input, is_async, k) {
+                        Ok(c) => acc.transitions += c,
+                        Err(what) => acc.violation(
+                            (ln, i * 2 + 1),
+                            format!("input {:?} {} reader, raw reads of {} bytes through stream() after every event: {}", lossy_head(&input), if is_async { "async" } else { "buffered" }, k, what),
+                            json!({"input": bytes_json(&input), "cfg": NEUTRAL, "stream": k, "async": is_async}),
+                        ),
+                    }
+                }
+            }
+        }
         acc.sample(seed, i ^ ((ln as u64) << 40), || json!({"layer": sp.name, "input": lossy(&input)}));
     });
 }
@@ -197,7 +274,7 @@ pub fn run(ctx: &Ctx) {
          lexer): input[pos_before..pos_after] == rendering of the returned event with its fixed delimiters; positions \
          never decrease; Eof position == BOM-stripped length; Writer::write_event over all successfully read events \
          == concatenation of those spans (DOCTYPE keyword canonicalised) and == the input itself when no error occurred \
-         and no DOCTYPE is present. The same identity for the buffered reader on every <=2-cut schedule. non-trivial = \
+         and no DOCTYPE is present. The same identity for the buffered reader on every <=2-cut schedule; raw reads of 1 and 3 bytes through Reader::stream() after every event (buffered: io::Read, async: read_exact over 1-byte pieces) return exactly the next input bytes and advance the position by their number. non-trivial = \
          stream contains markup or an error; distinct inputs. states = distinct event-kind sequences",
     );
     ctx.assume("trimming and empty-element expansion off, end-name checking off (as the property states)");
